@@ -304,3 +304,7 @@ def fidelity(tier, seed):
 from contracts.shared import reregister as _rr_static
 from contracts import c19 as _c19_static
 _rr_static('C10', 'C19', 'C19.no_stateful_local_statics', 'C10.lemma.no_state_between_calls', replay=None)
+
+# the SM-limit argument takes the light-Higgs couplings y_f^h = M_f s/v + rho_f c/sqrt2 with ONE sign s for quarks and leptons from C09's getter contract
+from contracts import c09 as _c09_y
+_rr_static('C10', 'C09', 'C09.yukawa_getters.published_form', 'C10.lemma.yukawa_getters.published_form')
